@@ -68,9 +68,12 @@ type session struct {
 	dialer, acceptor *node
 	pd, pa           *network.Peer // the dialer's and the acceptor's peer object of this connection
 	secret           []byte
+	secureReq        *network.VerifPacket // the SecureRequest that opened the session, as recorded on the wire
+	replayOf         int                  // > 0: connection opened by the attacker with the SecureRequest of that session
 }
 
 type world struct {
+	pending *verdict // a violation noticed on the way, reported unless a more specific one follows
 	rnd   *rand.Rand
 	nodes map[string]*node
 	sess  map[int]*session
@@ -103,6 +106,11 @@ func (w *world) start(s int) *verdict {
 		if err != nil {
 			return &verdict{"handshake:driver", fmt.Sprintf("session %d key exchange message %d: %v", s, i, err), false}
 		}
+		if i == 0 { // the network records the SecureRequest
+			f := network.VerifPacketOf(pkt)
+			f.Payload = append([]byte(nil), f.Payload...)
+			se.secureReq = &f
+		}
 		network.VerifAuthOnPacket(hop.n.a, pkt, hop.p)
 		if hop.p.IsClosed() {
 			return &verdict{"handshake:driver", fmt.Sprintf("session %d: key exchange failed at message %d: %s", s, i, hop.p.CloseInfo()), false}
@@ -131,6 +139,38 @@ func (w *world) start(s int) *verdict {
 	// the genuine request must be what the spec says the dialer emits: its key, its signature over this secret
 	if id, err := se.acceptor.a.VerifySignature(rq.PublicKey, rq.Signature, sd); err != nil || !id.Equal(se.dialer.id) {
 		return &verdict{"handshake:genuine-request", fmt.Sprintf("session %d: the dialer's own SignatureRequest does not verify: %v", s, err), false}
+	}
+	return nil
+}
+
+// replayTranscript: the attacker opens a new connection to the acceptor and sends the SecureRequest
+// recorded in session from; the acceptor runs its normal key exchange on it
+func (w *world) replayTranscript(t, from int) *verdict {
+	rec := w.sess[from]
+	if rec == nil || rec.secureReq == nil {
+		return &verdict{"handshake:driver", "transcript replay of a session that was not recorded", false}
+	}
+	se := &session{dialer: rec.dialer, acceptor: rec.acceptor, replayOf: from}
+	w.sess[t] = se
+	_, cb, _, _ := securechan.NewPipe(nil)
+	cb.Blocking, cb.BlockFor = true, 20*time.Second
+	se.pa = network.VerifAuthNewPeer(cb, true, "")
+	network.VerifAuthOnPeer(se.acceptor.a, se.pa)
+	f := *rec.secureReq
+	f.Hash = 0
+	network.VerifAuthOnPacket(se.acceptor.a, network.VerifNewPacket(f), se.pa)
+	if se.pa.IsClosed() {
+		return &verdict{"handshake:replay-refused", fmt.Sprintf("connection %d: the replayed SecureRequest of session %d was refused: %s", t, from, se.pa.CloseInfo()), false}
+	}
+	se.secret = network.VerifPeerSessionSecret(se.pa)
+	if len(se.secret) == 0 {
+		return &verdict{"handshake:driver", "no session secret after the replayed SecureRequest", false}
+	}
+	for o, other := range w.sess {
+		if o != t && other.secret != nil && bytes.Equal(other.secret, se.secret) {
+			// keep going: the replayed SignatureRequest will show what this allows
+			w.pending = &verdict{"authenticator:session-secret-reused", fmt.Sprintf("connection %d opened with the recorded SecureRequest of session %d got the SAME session secret as session %d: the acceptor contributed no fresh randomness, recorded signatures stay valid", t, from, o), true}
+		}
 	}
 	return nil
 }
@@ -204,6 +244,9 @@ func (w *world) deliver(i int, st step) *verdict {
 	}
 	desc := fmt.Sprintf("step %d: session %d (%s->%s) %s{key of %s (%s), signature by %s over the secret of session %d (%s), err=%v}",
 		i, st.S, se.dialer.name, se.acceptor.name, st.Op, st.Pkw, st.Pkf, st.Sw, st.Sc, st.Sf, st.Err)
+	if se.replayOf > 0 {
+		desc = fmt.Sprintf("connection %d was opened by replaying the recorded SecureRequest of session %d; ", st.S, se.replayOf) + desc
+	}
 	side := "dialer"
 	if toAcc {
 		side = "acceptor"
@@ -250,7 +293,7 @@ func (w *world) deliver(i int, st step) *verdict {
 		}
 	}
 	_, dialerDone := se.dialer.accepted[se.pd]
-	if toAcc && !dialerDone && !se.pd.IsClosed() {
+	if toAcc && se.pd != nil && !dialerDone && !se.pd.IsClosed() {
 		// the acceptor's answer travels to the dialer: the network takes it (the behaviour decides what arrives)
 		rp, err := next(se.pd)
 		if err != nil {
@@ -302,14 +345,19 @@ func runBehaviour(steps []step, rnd *rand.Rand) *verdict {
 		switch st.Op {
 		case "start":
 			v = w.start(st.S)
+		case "replaytx":
+			v = w.replayTranscript(st.S, st.Sc)
 		case "toacc", "todial":
 			v = w.deliver(i, st)
 		}
 		if v != nil {
+			if w.pending != nil && v.violation {
+				v.what += " [" + w.pending.what + "]"
+			}
 			return v
 		}
 	}
-	return nil
+	return w.pending
 }
 
 func TestReplay(t *testing.T) {
